@@ -1324,7 +1324,7 @@ class Stage:
     @property
     def _transcribed(self):
         if not self.is_transcribed:
-            self.master._transcribe()
+            self.master._transcribed # transcribes a copy: the declared specification stays as it is
         if self._is_original:
             return self._augmented 
         else:
